@@ -9,10 +9,11 @@ git checkout -q -- . ; git clean -fdq
 git apply $out/patch.diff || { echo "NOT-VERIFIED $id: patch does not apply"; exit 1; }
 pkgdir=$(python3 -c "import json;print(json.load(open('$out/meta.json'))['package_for_demo'])")
 demo=$(python3 -c "import json;print(json.load(open('$out/meta.json'))['demo_run'])")
+race=""; case "$demo" in *-race*) race="-race";; esac
 if [ -f $out/demo_test.go ]; then
   names=$(grep -o '^func Test[A-Za-z0-9_]*' $out/demo_test.go | sed 's/^func //' | paste -sd'|')
-  case $pkgdir in addons/processors/*) m=$(echo $pkgdir | cut -d/ -f1-3); sub=${pkgdir#$m/}; demo="cd $m && go test -vet=off -count=1 -run '^($names)\$' ./$sub/";;
-  *) demo="go test -vet=off -count=1 -run '^($names)\$' ./$pkgdir/";; esac
+  case $pkgdir in addons/processors/*) m=$(echo $pkgdir | cut -d/ -f1-3); sub=${pkgdir#$m/}; demo="cd $m && go test $race -vet=off -count=1 -run '^($names)\$' ./$sub/";;
+  *) demo="go test $race -vet=off -count=1 -run '^($names)\$' ./$pkgdir/";; esac
 fi
 [ -f $out/demo_test.go ] && cp $out/demo_test.go $wt/$pkgdir/zz_seed_demo_test.go
 withc=$( (eval "$demo") 2>&1 | tail -5 ); rc_with=$?
